@@ -347,20 +347,23 @@ H("mprotect_failure_leaves_target_untouched", variant="x64-linux", modules=["rt"
 ASYNC_FUNCS = ["InjectorPP::when_called_async", "InjectorPP::when_called_async_unchecked", "WhenCalledBuilderAsync::will_return_async",
                "WhenCalledBuilderAsync::will_return_async_unchecked", "async_func! / async_return! / async_func_unchecked! / async_return_unchecked! expansions",
                "__assert_future_output", "func! / func_unchecked!"] + X64_CORE_FUNCS
+# the global unwind bound stays at 26 (so that an unbounded-looking loop in the code under test is not
+# unrolled 72 times); only CBMC's memcmp (type-name comparison, 64-byte output comparison) gets 72
+ASYNC_EXTRA = ["-Z", "unstable-options", "--cbmc-args", "--unwindset", "memcmp.0:72"]
 ASYNC_ASSUME = API_ASSUME + ["the patched function is <F as Future>::poll at the address Kani assigns to it (registered as an entry, matched by equality); only the displacement arithmetic is concrete there",
                              "trusted: the replacement may ignore poll's two arguments under the platform ABI; the compiler emits calls to poll rather than inlining it (dev profile); executor behaviour"]
 H("async_fake_one_of_family", variant="x64-linux", modules=["rt", "x64dec", "async_api"], functions=ASYNC_FUNCS, assumptions=ASYNC_ASSUME,
   symbolic="initial bytes of three sibling poll functions (two with the same output type, one by-reference), value returned by the replacement on two successive polls, register file",
-  bounds="family of 3 siblings, one installation, two polls, drop; unwind 72")
+  bounds="family of 3 siblings, one installation, two polls, drop; unwind 26, memcmp 72", extra=ASYNC_EXTRA)
 H("async_history_family", variant="x64-linux", modules=["rt", "x64dec", "async_api"], functions=ASYNC_FUNCS, assumptions=ASYNC_ASSUME,
   symbolic="initial bytes of a method future's poll and a by-reference sibling's poll; register file",
-  bounds="history fake / re-fake (checked) / fake sibling (unchecked flavour) / drop: L=3 over 2 siblings; unwind 72")
+  bounds="history fake / re-fake (checked) / fake sibling (unchecked flavour) / drop: L=3 over 2 siblings; unwind 26, memcmp 72", extra=ASYNC_EXTRA)
 H("async_refake_same_function", variant="x64-linux", modules=["rt", "x64dec", "async_api"], functions=ASYNC_FUNCS, assumptions=ASYNC_ASSUME,
   symbolic="initial bytes of the poll function; value of the second replacement; register file",
-  bounds="one async function faked twice through one injector (checked API), then dropped; unwind 72")
+  bounds="one async function faked twice through one injector (checked API), then dropped; unwind 26, memcmp 72", extra=ASYNC_EXTRA)
 H("async_outputs_unit_and_large", variant="x64-linux", modules=["rt", "x64dec", "async_api"], functions=ASYNC_FUNCS, assumptions=ASYNC_ASSUME,
   symbolic="value inside a 64-byte output; initial bytes; register file",
-  bounds="unit output and [u64; 8] output; unwind 72")
+  bounds="unit output and [u64; 8] output; unwind 26, memcmp 72", extra=ASYNC_EXTRA)
 
 NOT_APPLICABLE = {}
 
@@ -485,6 +488,7 @@ PROPERTIES = {
         seed_rotation=['async_history_family'],
         level_text="The async macros and API are run on real `async fn`s (free functions and a method, by-value and by-reference parameters; u32, unit and 64-byte outputs; futures created and never polled, as the macros do): the solver decides that the entry that gets patched is <F as Future>::poll of exactly the named function's future type and that the poll functions of siblings - including one with the same output type - keep their bytes; that the decoded destination is the address of the function generated by async_return!, which returns Poll::Ready(v) on every call with v evaluated afresh (the value expression reads a cell the harness changes between calls); that histories fake / re-fake / fake sibling (unchecked flavour) / drop leave the latest in effect and restore everything. Output-type mismatches are refused by the C09 gate (sig_gate_async_differs).",
         level_note="Trusted: the replacement may ignore poll's arguments under the platform ABI; poll is called, not inlined; executor behaviour. Addresses of poll functions are the ones Kani assigns (concrete object ids), so address-placement generality is C01's, not this check's.",
+        premises=["premise_async_refake_native"],
         quick=["async_fake_one_of_family", "async_refake_same_function", "async_outputs_unit_and_large", "sig_gate_async_differs_6"],
         thorough=["async_fake_one_of_family", "async_refake_same_function", "async_history_family", "async_outputs_unit_and_large", "sig_gate_async_differs_6"],
         outside=["executors / wakers / threads", "async functions with captured non-'static state beyond the family"],
@@ -681,6 +685,22 @@ def premise_bool_gate_family(work, tier):
         return {"name": "bool_gate_family", "ok": None, "detail": "no summary: " + p.stdout[-300:]}
     return {"name": "bool_gate_family", "ok": not fails, "evaluations": int(m.group(1)), "distinct": int(m.group(1)) - len(fails),
             "violations": fails, "detail": m.group(0), "samples": ["fn() -> fn() -> bool", "fn() -> &dyn Fn() -> bool", "fn(fn() -> bool)"]}
+
+
+def premise_async_refake_native(work, tier):
+    """C14 native premise (NOT a solver step): fake / fake sibling / re-fake / await / drop / await on real
+    async functions under a minimal executor, in a child process."""
+    import native
+    try:
+        binp = native.build(work, "type_names")
+    except Exception as e:
+        return {"name": "async_refake_native", "ok": None, "detail": "build failed: %s" % (str(e)[-400:],)}
+    p = subprocess.run([binp, "async"], stdout=subprocess.PIPE, stderr=subprocess.STDOUT, text=True, timeout=120)
+    fails = [l[len("ASYNCFAIL "):] for l in p.stdout.splitlines() if l.startswith("ASYNCFAIL")]
+    if "ASYNCSUMMARY" not in p.stdout:
+        return {"name": "async_refake_native", "ok": None, "detail": "no summary: " + p.stdout[-300:]}
+    return {"name": "async_refake_native", "ok": not fails, "evaluations": 1, "distinct": 1, "violations": fails,
+            "detail": p.stdout.strip().splitlines()[-1], "samples": ["fake quota; fake limit; await; re-fake quota; await x3; drop; await x2"]}
 
 
 def premise_verifier_message(work, tier):
